@@ -113,6 +113,15 @@ func (fc *fnCtx) staticCall(cs *callSite, callee *ssa.Function, bindings []*val)
 	if strings.HasPrefix(callee.Name(), "spec_") {
 		return fc.pureCall(callee, cs.args, fc.curH, fc.curR)
 	}
+	if g.lite {
+		// typestate level: contracts speak about values and heap contents, which do not exist here; only lock
+		// operations matter: inline callees that can reach one, everything else is a havoc of its results
+		if callee.Blocks != nil && fc.depth < g.maxDepth+2 && !fc.inChain(callee) && g.instrs < maxInstrs &&
+			strings.HasPrefix(pkgPathOf(callee), modulePath) && touchesLocks(callee, 6, map[*ssa.Function]bool{}) {
+			return fc.inline(cs, callee, bindings)
+		}
+		return fc.havocCall(cs, false)
+	}
 	if tc := g.w.trustedExt[name]; tc != nil {
 		g.trusted["trusted contract: "+name] = true
 		return fc.applyContract(cs, callee, tc)
